@@ -306,7 +306,7 @@ func runC10(tierName string) int {
 		probes                                                    map[string]int
 		prefillKinds                                              map[string]int
 		execs, parses, reexec, clock, gcs, logs, sweeps, prefills int
-		simNs                                                     int64
+		simS                                                      float64
 		draws                                                     uint64
 		samples                                                   []any
 	}
@@ -367,7 +367,7 @@ func runC10(tierName string) int {
 				A.logs += st.logSwitches
 				A.sweeps += st.sweeps
 				A.prefills += st.prefills
-				A.simNs += st.simNs
+				A.simS += float64(st.simNs) / 1e9
 				A.draws += st.draws
 				if len(A.samples) < 3 && v == nil && st.nontrivial {
 					A.samples = append(A.samples, sampleOf(spec, res))
@@ -509,7 +509,7 @@ func runC10(tierName string) int {
 			"os_processes_started":                             c.procsStarted,
 			"runs_per_hour":                                    int(float64(A.evals) / histSecs * 3600),
 			"seeds_per_hour":                                   int(float64(A.evals) / histSecs * 3600),
-			"simulated_time_s":                                 float64(A.simNs) / 1e9,
+			"simulated_time_s":                                 A.simS,
 			"perturbations_fired":                              map[string]any{"exec": A.execs, "parse": A.parses, "tree_reexecutions": A.reexec, "clock_jumps": A.clock, "gc": A.gcs, "logger_switches": A.logs, "sweeps": A.sweeps, "prefills": A.prefills, "prefill_kinds": A.prefillKinds, "entropy_reseeds": A.execs + A.parses},
 			"entropy_draws_total":                              A.draws,
 			"adjacency_pairs_covered":                          len(A.adj),
